@@ -231,7 +231,8 @@ impl ModuleConfig {
     ///
     /// By default this flag is `false`.
     pub fn preserve_code_transform(&mut self, preserve: bool) -> &mut ModuleConfig {
-        self.preserve_code_transform = preserve;
+        // generate_dwarf implies preserve_code_transform, whichever is set first
+        self.preserve_code_transform = preserve || self.generate_dwarf;
         self
     }
 
